@@ -33,6 +33,8 @@ CUTS = [
     "module global builtins: effectful builtins (print/input/open/exec/eval/exit/...) are recording stubs",
     "module global sympy: raises MarkerEscape on marker-bearing text (falls back to concrete-literal mode)",
     "functools.lru_cache caches of the package cleared at the start of every path",
+    "constants.COMPARISON_OPERATORS[Is/IsNot] (operator.is_/is_not) replaced by proxy-aware identity "
+    "(bool/None singletons modelled; identity between numbers is Unsupported)",
 ]
 
 
@@ -153,6 +155,11 @@ class Loader(importlib.machinery.SourceFileLoader):
             d["ast"] = SHADOW_AST
         if d.get("builtins") is builtins:
             d["builtins"] = SHADOW_BUILTINS
+        if module.__name__ == "pyrefact.constants" and "COMPARISON_OPERATORS" in d:
+            ops = dict(d["COMPARISON_OPERATORS"])
+            ops[ast.Is] = sym.sym_is
+            ops[ast.IsNot] = sym.sym_is_not
+            d["COMPARISON_OPERATORS"] = types.MappingProxyType(ops)
         if module.__name__ == "pyrefact.symbolic_math":
             real = d.get("sympy")
             if isinstance(real, types.ModuleType):
